@@ -102,8 +102,8 @@ def gen_plan(rng, tier, index=0):
     r = rng.sub("hist")
     length = r.weighted([(r.randint(5, 20), 5), (r.randint(20, 60), 3), (r.randint(100, 200), 1)]
                         + ([(r.randint(400, 1500), 0.5)] if tier == "thorough" else []))
-    mix = r.choice([{"add_row": 6, "read": 2, "print": 1, "hold": 1.0, "noise": 1, "clone": 0.4, "restart": 0.3},
-                    {"add_row": 3, "read": 3, "print": 3, "hold": 1.5, "noise": 2, "clone": 0.6, "restart": 0.5},
+    mix = r.choice([{"add_row": 6, "read": 2, "print": 1, "hold": 1.0, "noise": 1, "clone": 0.4, "restart": 0.3, "peek": 0.2},
+                    {"add_row": 3, "read": 3, "print": 3, "hold": 1.5, "noise": 2, "clone": 0.6, "restart": 0.5, "peek": 0.5},
                     {"add_row": 10, "read": 0.5, "print": 0.2, "hold": 0.6, "noise": 0.2, "clone": 0.2, "restart": 0.1}])
     steps = []
     faulty = rng.sub("faulty").chance(0.3)           # a third of the programs meet failing allocations
@@ -121,6 +121,8 @@ def gen_plan(rng, tier, index=0):
             steps.append({"op": "print", "s": s, "how": r.choice(PRINT_KINDS)})
         elif op == "restart":
             steps.append({"op": "restart", "s": s})
+        elif op == "peek":
+            steps.append({"op": "peek", "s": s})
         elif op == "clone":
             # checkpoint: from here on the caller works with a copy of the screen (pickle round trip / deepcopy)
             steps.append({"op": "clone", "s": s, "how": r.choice(["pickle", "deepcopy"])})
@@ -336,7 +338,7 @@ def _execute_history(plan, keep_log, res, log, specs, n, canon, names, alloc):
 
         def check_twin(i, si, what):
             """bring the read-free twin to the same number of rows and compare bytes"""
-            if twin[i] is None:
+            if twin[i] is None or peeked[i]:
                 return
             while twin_rows[i] < rows[i]:
                 twin[i].add_row()
@@ -348,6 +350,7 @@ def _execute_history(plan, keep_log, res, log, specs, n, canon, names, alloc):
 
         last_was_read = [False] * n
         consecutive = [0] * n
+        peeked = [False] * n
         for si, st in enumerate(plan["steps"]):
             res.steps += 1
             if "noise" in st:
@@ -470,6 +473,25 @@ def _execute_history(plan, keep_log, res, log, specs, n, canon, names, alloc):
                     held[i] = (ret, numpy.array(ret, copy=True), rows[i])        # the caller keeps what add_row() returned
                 check_twin(i, si, "add_row")
                 continue
+            if op == "peek":
+                # the public get_new_row(): the caller looks at a candidate row without adding it. (On the unchanged tree this draws
+                # from the stream, so the add_row-only twin is out of step until the next restart.) The screen must not change.
+                consecutive[i] = 0
+                try:
+                    s.get_new_row()
+                except AttributeError:
+                    log.add(si, "peek-unavailable", i)
+                    continue
+                except Exception as e:
+                    res.violate("raised", "C05:get_new_row-raised:%s:%s" % (sp["kind"], type(e).__name__), "screen %d: get_new_row() raised %s" % (i, e), si)
+                    continue
+                peeked[i] = True
+                res.count("op.peek_get_new_row")
+                log.add(si, "peek", i)
+                if screens.abytes(s.scrn) != screens.abytes(model[i]):
+                    res.violate("purity", "C05:screen-changed-without-add_row:%s:get_new_row" % sp["kind"],
+                                "screen %d changed during get_new_row()" % i, si)
+                continue
             consecutive[i] = 0
             gstate = repr(gens[i].bit_generator.state) if gens[i] is not None else None
             try:
@@ -495,6 +517,8 @@ def _execute_history(plan, keep_log, res, log, specs, n, canon, names, alloc):
                     continue
                 rows[i] = 0
                 twin_rows[i] = 0
+                if not (isinstance(sp["seed"], dict) and "gen" in sp["seed"]):
+                    peeked[i] = False         # a Generator passed as seed is continued, not re-created: its twin stays out of step
                 held[i] = None
                 res.count("op.restart")
                 cur = s.scrn
